@@ -325,7 +325,8 @@ func init() {
 		rule("R1R2-sql-spec", ruleSQLSpec(kindList("ReadPromises", "ReadSchedules", "ReadTasks", "ReadEnqueueableTasks", "TimeoutLocks", "UpdatePromise", "UpdateSchedule", "UpdateTask"))).
 		rule("R9-command-provenance", ruleCmdProvenance("ReadPromisesCommand", "ReadSchedulesCommand", "ReadTasksCommand", "ReadEnqueueableTasksCommand", "TimeoutLocksCommand", "UpdatePromiseCommand", "UpdateScheduleCommand", "UpdateTaskCommand")).
 		rule("R17-commands-submitted", ruleCommandsSubmitted).
-		rule("R17-lifecycle-calls", ruleLifecycleCalls)
+		rule("R17-lifecycle-calls", ruleLifecycleCalls).
+		rule("R12-await-non-nil", ruleAwaitNonNil)
 
 	regProp("C12",
 		[]string{
@@ -343,7 +344,8 @@ func init() {
 		rule("R10-batches-processed", ruleBatchesProcessed).
 		rule("R10-kernel-queues", ruleKernelQueues).
 		rule("R17-lifecycle-calls", ruleLifecycleCalls).
-		rule("R10-cqe-well-formed", ruleCQEWellFormed)
+		rule("R10-cqe-well-formed", ruleCQEWellFormed).
+		rule("R10-dequeue-bound", ruleDequeueBound)
 }
 
 func init() {
@@ -374,7 +376,9 @@ func init() {
 		rule("R12-records-index", ruleRecordsIndex).
 		rule("R13-front-end-siblings", ruleFrontEndSiblings).
 		rule("M-stmt-prepared", ruleStmtPrepared).
-		rule("R10-cqe-well-formed", ruleCQEWellFormed)
+		rule("R10-cqe-well-formed", ruleCQEWellFormed).
+		rule("R10-dequeue-bound", ruleDequeueBound).
+		rule("R12-await-non-nil", ruleAwaitNonNil)
 }
 
 func init() {
